@@ -490,6 +490,54 @@ theorem parseTwoByteL_shape (off : Nat) (l : Bytes) :
   | case6 => intro es h; simp at h
   | case7 => intro es h; simp at h
 
+/-! ### the fixed fields of a decoded header -/
+
+theorem readCsrcs_length_le (n : Nat) (l : Bytes) : (readCsrcs n l).length ≤ n := by
+  fun_induction readCsrcs n l with
+  | case1 n a b c d rest ih => simp only [List.length_cons]; omega
+  | case2 => simp
+
+theorem and3_lt (b : UInt8) : (b &&& 3).toNat < 4 := by
+  rw [UInt8.toNat_and]
+  exact Nat.lt_of_le_of_lt Nat.and_le_right (by decide)
+
+theorem and127_lt (b : UInt8) : (b &&& 127).toNat < 128 := by
+  rw [UInt8.toNat_and]
+  exact Nat.lt_of_le_of_lt Nat.and_le_right (by decide)
+
+/-- version < 4, payload type < 128, at most 15 CSRCs — whatever the bytes were -/
+theorem hdrUnmarshalL_fixed (r : Header) (buf : Bytes) (h : Header) (n : Nat) (locs : List Nat)
+    (hok : hdrUnmarshalL r buf = .ok (h, n, locs)) :
+    h.version.toNat < 4 ∧ h.payloadType.toNat < 128 ∧ h.csrc.length ≤ 15 := by
+  unfold hdrUnmarshalL at hok
+  simp only [] at hok
+  split at hok
+  · split at hok
+    · simp at hok
+    · split at hok
+      · split at hok
+        · split at hok
+          · split at hok
+            · simp at hok
+            · split at hok
+              · rename_i _ b0 b1 s0 s1 _ t0 t1 t2 t3 c0 c1 c2 c3 rest12 hlen hx _ p0 p1 l0 l1 afterHdr heq hshort _ es used hparse
+                have hcc := and15_le b0
+                have hcs := readCsrcs_length_le (b0 &&& 15).toNat rest12
+                simp only [Res.ok.injEq, Prod.mk.injEq] at hok
+                obtain ⟨rfl, _, _⟩ := hok
+                exact ⟨and3_lt _, and127_lt _, by simp only; omega⟩
+              · simp at hok
+              · simp at hok
+          · simp at hok
+        · rename_i _ b0 b1 s0 s1 _ t0 t1 t2 t3 c0 c1 c2 c3 rest12 hlen hx
+          have hcc := and15_le b0
+          have hcs := readCsrcs_length_le (b0 &&& 15).toNat rest12
+          simp only [Res.ok.injEq, Prod.mk.injEq] at hok
+          obtain ⟨rfl, _, _⟩ := hok
+          exact ⟨and3_lt _, and127_lt _, by simp only; omega⟩
+      · simp at hok
+  · simp at hok
+
 /-! ### Packet.Unmarshal -/
 
 theorem pktUnmarshal_ne_panic (r : Packet) (buf : Bytes) : pktUnmarshal r buf ≠ .panic := by
